@@ -134,6 +134,16 @@ def run(ctx, chk):
     chk.rule("D4", "local rejection conditions of the frontend API are must-facts at the send site")
     chk.rule("D5", "the frontend passes descriptors exactly where the protocol prescribes; the handler receives the received files")
     run_on(fb, chk)
+    # sibling rules that decide clauses of this property as well: the request body is composed from the caller's
+    # arguments field by field (C01/W5); feature-gated operations are refused locally (C07/G1, frontend side); the
+    # frontend's negotiation record equals what it sent, so it awaits exactly the acknowledgements the backend writes (C07/G5)
+    from vlint.report import Renamed
+    from . import c01, c07
+    chk.rule("D6", "request bodies carry the caller's arguments field by field (C01/W5)")
+    c01.w5(fb, Renamed(chk, {"W5": "D6"}))
+    chk.rule("D7", "frontend operations tied to a feature put nothing on the wire before it is negotiated (C07/G1)")
+    chk.rule("D8", "the frontend's record of the negotiated sets equals what it sent / received (C07/G5)")
+    c07.run_on(fb, Renamed(chk, {"G1": ("D7", lambda k: "Frontend" in k), "G5": ("D8", lambda k: "frontend:" in k)}))
     n = lambda r: len([i for i in chk.instances if i[0] == r])
     chk.floor("D1", n("D1"), 34)
     chk.floor("D2", n("D2"), 35)
